@@ -188,6 +188,9 @@ func c08Imports(r *Run) {
 // call that hands that list to the deleter dominates every return that is not an error return —
 // duplicates and pods of ineligible nodes are deleted in every sync, paused/frozen or not.
 func c01CleanupAlways(r *Run) {
+	r.Floor("C01.R9", 3)
+	r.ImportFrom(runC10, map[string]string{"C10.R2": "C01.R9"}, map[string]string{
+		"C01.R9": "a created pod is attributed to the node it was created for: the affinity writer pins every term to the node name and leaves no other node-name requirement for the reader to find first (otherwise the next sync creates a second pod for the node)"})
 	r.RuleDoc("C01.R8", "the clean-up list (duplicates, pods of ineligible nodes, failed pods) is handed to the deleter on every non-error path of the active and canary planners, whatever the pause/freeze state")
 	r.Floor("C01.R8", 2)
 	_, reach := ersReconcile(r)
